@@ -151,6 +151,11 @@ def gen_assign(rng, accounts):
             continue
         locs.append(loc)
         lines.append(kind + loc + b":" + data(evil) + b":\n")
+    if rng.random() < 0.05:
+        # a table of realistic size: hundreds of further keys (multi-slot hash tables, a cdb of tens of kilobytes)
+        for j in range(rng.choice([200, 700])):
+            filler = rng.choice([b"=", b"+"]) + b"zz%d%s" % (j, rng.choice([b"", b"-", b".x"])) + b":" + data() + b":\n"
+            lines.insert(rng.randint(0, len(lines)), filler)
     return b"".join(lines) + b".\n"
 
 
